@@ -1,7 +1,8 @@
 """Generator of agent life-cycle scripts (C20).  It mirrors just enough of the
 life-cycle (is a loop running, did it end) to issue only operations that are
-inside the agent's contract: Stop only while a loop runs, Wait only after a
-loop ended, a new Start only after the previous loop's result was collected."""
+inside the agent's contract: Stop only while a loop runs, Wait only when a loop
+has ended or (WaitEarly) to be released by the next end; results of ended runs
+may stay uncollected (up to three) while the agent is started again."""
 import random
 
 
@@ -79,12 +80,15 @@ class Life:
             self.ops.append({"op": "Collect"})
             self.got = 0
             return
-        if self.waitq > 0:
+        if self.waitq > 0 and (self.waitq >= 3 or r.random() < 0.5):
+            # (the result of an ended run may also be left uncollected for a while: the agent can be started again)
             self.ops.append({"op": "Wait"})
             self.waitq -= 1
             return
+        if self.waitq > 0 and self.early:
+            pass
         busy_next = self.slow and self.now + 1 >= self.t0 + self.interval and (self.now + 1 - self.t0) % self.interval < self.slow + 1
-        if not self.early and not busy_next and r.random() < 0.08:
+        if not self.early and self.waitq == 0 and not busy_next and r.random() < 0.08:
             self.ops.append({"op": "WaitEarly"})
             self.early = True
             self.advance(1)        # the driver watches the blocked call for one second
